@@ -785,8 +785,10 @@ theorem final_iff_no_exception (v : Variant) (max : Nat) (sc : Scope) (msgs : Li
 /-! ### every message reaches the protocol: `call_soon` is synchronous -/
 
 open Extracted.WsgiSites in
-/-- **`call_soon` waits for each send on both workers** — re-decided against the current source (the extractor reads
-    `_call_soon` of asyncio/task_group.py and the `call_soon` argument of trio/task_group.py) -/
+/-- **`call_soon` waits for each send on both workers, in the built-in WSGI mode and through the WSGI middleware
+    classes** — re-decided against the current source (the extractor reads `_call_soon` of asyncio/task_group.py, the
+    `call_soon` argument of trio/task_group.py, and the pair `AsyncioWSGIMiddleware.__call__` / `TrioWSGIMiddleware.__call__`
+    of middleware/wsgi.py hand to `WSGIWrapper`) -/
 theorem call_soon_synchronous (w : Worker) : callSoonWaits w = true := by
   cases w <;> decide
 
